@@ -492,7 +492,8 @@ func (n *ForNode) renderForLoop(w io.Writer, ctx *RenderContext, seq interface{}
 		}
 
 	case reflect.Map:
-		keys := val.MapKeys()
+		// Iterate in an order that depends only on the keys, not on Go's map order
+		keys := sortedMapKeys(val)
 		for i, key := range keys {
 			// Set the loop variables
 			loopVars["loop"].(map[string]interface{})["index"] = i + 1
